@@ -173,6 +173,8 @@ def run(ctx):
     helpers = discover_helpers()
     hcodes = sorted(PERMANENT) + [-32603, -32001, -32002, -32004, -32099, -32100, -1, 0, 1, 404, 2**63 - 1,
                                   -32604, -32599, -31999, -32009, 100, -100, 32000, -32768, -32800]
+    if ctx.tier == "thorough":
+        hcodes = sorted(set(hcodes + list(range(-32110, -31990)) + list(range(-20, 21)) + [2**31, -2**31, 2**63, -2**63]))
     hcases = []
     for hname in sorted(helpers):
         short = hname.rsplit(".", 1)[-1]
